@@ -20,10 +20,16 @@ def run(tier):
     quick = tier == "quick"
     v = vlib.Verdict(PROP)
     mc = [vlib.model_check("tcp/FollowerKey", "FollowerKey_code.cfg", workers=2, timeout=300),
-          vlib.model_check("tcp/FollowerSweep", "FollowerSweep_code.cfg", timeout=900)]
+          vlib.model_check("tcp/FollowerSweep", "FollowerSweep_code.cfg", timeout=900),
+          # the whole follower (table, Stream/Flow state machine, logical DataTracker, limits, sweep) against FollowerAbs!Judge
+          # for every interleaving and time increment of two scripted connections
+          vlib.model_check("tcp/FollowerImpl", "FollowerImpl_q.cfg" if quick else "FollowerImpl_t.cfg", timeout=3000)]
     refuted = []
     for m, c in (("tcp/FollowerKey", "zero_pad"), ("tcp/FollowerKey", "sort_each"),
-                 ("tcp/FollowerSweep", "never_sweep"), ("tcp/FollowerSweep", "strict_lt")):
+                 ("tcp/FollowerSweep", "never_sweep"), ("tcp/FollowerSweep", "strict_lt"),
+                 ("tcp/FollowerImpl", "mut_limit_client_only"), ("tcp/FollowerImpl", "mut_finish_any_fin"),
+                 ("tcp/FollowerImpl", "mut_state_frozen_after_fin"), ("tcp/FollowerImpl", "mut_sweep_by_create_time"),
+                 ("tcp/FollowerImpl", "mut_announce_on_any_syn"), ("tcp/FollowerImpl", "reach")):
         vlib.expect_violation(m, "%s_%s.cfg" % (m.split("/")[1], c), timeout=300)
         refuted.append(c)
     sim, g = vlib.tlc_generate("tcp/FollowerGen", "FollowerGen_sim.cfg", simulate=500 if quick else 12000, depth=45,
@@ -55,14 +61,20 @@ def run(tier):
                 "one-bit port differences, same 4-tuple in IPv4 and IPv6), both families, ISNs next to 0/2^31/2^32; "
                 "non-trivial = both connections present and some data",
         "model_checked": {"FollowerKey": "all endpoint pairs over 2 families x 3 addresses x 2 ports",
-                          "FollowerSweep": {"distinct": mc[1].distinct}, "model_mutants_refuted": refuted},
+                          "FollowerSweep": {"distinct": mc[1].distinct},
+                          "FollowerImpl": {"distinct": mc[2].distinct, "generated": mc[2].generated,
+                                           "what": "every interleaving and time increment {0, keep-alive, > 2 keep-alives} of two scripted "
+                                                   "connections (13 scripts x %s), attach on/off, judged step by step by FollowerAbs!Judge" % (
+                                                       "the idle script" if quick else "5 scripts")},
+                          "model_mutants_refuted": refuted},
         "replay": p.stats, "exhaustive": False,
     }
     vlib.write_evidence(PROP, tier, "model_checking", cov, time.time() - t0, len(v.violations), [
         "scripts are well-formed per connection (in-order handshake); interleavings and capture times are arbitrary",
         "buffer limits are set to the model's values (2 chunks / 6 bytes) through the guarded hook verif_set_limits",
-        "the design-level TLC checks cover the table key and the sweep schedule; the reference connection table "
-        "(FollowerAbs) decides the verdict on recorded executions; self-connections are excluded",
+        "TLC checks the table key, the sweep schedule and an implementation-shaped model of the whole follower (FollowerImpl, "
+        "logical sequence coordinates; wrap-around is C06's subject) against FollowerAbs!Judge, the same operator that decides the "
+        "verdict on recorded executions of the real code; self-connections are excluded",
     ])
     return rc
 
